@@ -58,9 +58,10 @@ func ParseWithStartPos(src []byte, filename string, start hcl.Pos) (*hcl.File, h
 			End:      fakePos,
 		}
 		rootNode = &objectVal{
-			Attrs:     []*objectAttr{},
-			SrcRange:  fakeRange,
-			OpenRange: fakeRange,
+			Attrs:      []*objectAttr{},
+			SrcRange:   fakeRange,
+			OpenRange:  fakeRange,
+			CloseRange: fakeRange,
 		}
 	}
 
